@@ -402,7 +402,8 @@ def _strace_instance(arg):
     mfn(after, c08.universe('registered'))
     out = {'ev': 0, 'nt': 0, 'viol': [], 'syscalls': 0}
     driver = os.path.join(core.VERIF, 'mc', 'c09_driver.py')
-    env = dict(os.environ, PYTHONPATH=core.VERIF)
+    # (the child imports the same pygaps tree as this process: an inherited PYTHONPATH is kept behind the harness directory)
+    env = dict(os.environ, PYTHONPATH=os.pathsep.join([core.VERIF] + [x for x in os.environ.get('PYTHONPATH', '').split(os.pathsep) if x]))
     # count the write-class syscalls between the two markers
     fresh_copy(prepared, work)
     cmd = ['strace', '-f', '-o', os.path.join(sdir, 'trace.txt'), '-e', 'trace=pwrite64,write,fdatasync,fsync,unlink,ftruncate',
